@@ -7,6 +7,7 @@ package main
 
 import (
 	"context"
+	"errors"
 	"fmt"
 	"math/big"
 	"reflect"
@@ -196,6 +197,10 @@ func driveConc(seed uint64, n int, size int, em *Emitter) {
 		// and time, a block context that differs in one field) ran before it in this process
 		em.Op("C16,C17", "S det-interleaved", detInterleaved(r))
 
+		// the Artela precompiles from several instances at once (context reads, JIT sender lookups and context writes, which
+		// carry the caller they are made for): every instance must see what the model of the precompile says for it alone
+		concArtela(r, em, seed, b)
+
 		// cancellation of a looping execution from another goroutine: the loop runs in the top-level frame, one call down, in the
 		// init code of a CREATE one level down, or in the init code of a top-level creation; a counting debug tracer is attached
 		// half of the time (its start/end and enter/exit callbacks are part of the bookkeeping that must be closed)
@@ -295,4 +300,146 @@ func (l *countLogger) CaptureExit([]byte, uint64, error) { l.exits++ }
 func (l *countLogger) CaptureState(uint64, vm.OpCode, uint64, uint64, *vm.ScopeContext, []byte, int, error) {
 }
 func (l *countLogger) CaptureFault(uint64, vm.OpCode, uint64, uint64, *vm.ScopeContext, int, error) {
+}
+
+// forwarderGas is forwarder with a fixed gas operand for the call it makes.
+func forwarderGas(kind byte, to common.Address, gas uint64) []byte {
+	a := &Asm{}
+	a.Op(opCALLDATASIZE, opPUSH1, 0, opPUSH1, 0, opCALLDATACOPY)
+	a.Op(opPUSH1, 0, opPUSH1, 0, opCALLDATASIZE, opPUSH1, 0)
+	if kind == opCALL || kind == opCALLCODE {
+		a.Op(opPUSH1, 0)
+	}
+	a.PushBytes(to[:])
+	a.PushU(gas).Op(kind, opPOP, opSTOP)
+	return a.Bytes()
+}
+
+type artelaCase struct {
+	addrB   byte
+	input   []byte
+	fork    string
+	hops    []byte
+	lastGas uint64 // gas operand of the hop that reaches the precompile
+	ret     []byte
+	refuse  bool
+	idx     int
+}
+
+func (c *artelaCase) fw(j int) common.Address {
+	return common.BytesToAddress([]byte{0xf0, byte(c.idx + 1), byte(j + 1)})
+}
+
+// run executes the case on a fresh state database and EVM; the host's answers and log travel in the call's context
+func (c *artelaCase) run() (impl string, ctxTok string, rec *hostRec) {
+	addr := common.BytesToAddress([]byte{c.addrB})
+	sdb := newStateDB()
+	lg := &pcLogger{target: addr}
+	env := newEnv(c.fork, lg, nil, sdb, nil)
+	env.evm.CloseAspectCall()
+	depth := len(c.hops)
+	storage := c.fw(0)
+	for j := 0; j < depth; j++ {
+		to := addr
+		if j+1 < depth {
+			to = c.fw(j + 1)
+		}
+		sdb.CreateAccount(c.fw(j))
+		if j+1 == depth {
+			sdb.SetCode(c.fw(j), forwarderGas(c.hops[j], to, c.lastGas))
+		} else {
+			sdb.SetCode(c.fw(j), forwarder(c.hops[j], to))
+		}
+		if j+1 < depth && (c.hops[j] == opCALL || c.hops[j] == opSTATICCALL) {
+			storage = c.fw(j + 1)
+		}
+	}
+	ctxTok = "-"
+	if c.hops[depth-1] == opCALL {
+		ctxTok = hexAddr(storage)
+	}
+	rec = &hostRec{ret: c.ret, fail: map[string]error{}}
+	if c.refuse {
+		e := errors.New("host refused")
+		rec.fail["get"], rec.fail["set"], rec.fail["jit"] = e, e, e
+	}
+	func() {
+		defer func() {
+			if x := recover(); x != nil {
+				impl = "panic"
+			}
+		}()
+		ctx := context.WithValue(context.Background(), hostRecKey{}, rec)
+		env.evm.Call(ctx, vm.AccountRef(common.BytesToAddress([]byte{0xca, byte(c.idx)})), c.fw(0), c.input, 5_000_000, new(big.Int))
+		if !lg.seen {
+			impl = "not-reached"
+		} else if lg.err != nil {
+			impl = fmt.Sprintf("host=%s res=err", rec.logStr())
+		} else {
+			impl = fmt.Sprintf("host=%s res=ok:%s", rec.logStr(), hexBytes(lg.out))
+		}
+	}()
+	return
+}
+
+func concArtela(r *Rng, em *Emitter, seed uint64, b int) {
+	const workers = 8
+	kinds := []byte{opCALL, opCALL, opCALLCODE, opDELEGATECALL, opSTATICCALL}
+	cases := make([]*artelaCase, workers*3)
+	for i := range cases {
+		c := &artelaCase{idx: i, addrB: []byte{0x64, 0x65, 0x66, 0x66, 0x66}[r.Intn(5)], fork: []string{"Berlin", "London", "Shanghai", "Cancun"}[r.Intn(4)]}
+		c.input, _ = genPayload(r, c.addrB)
+		c.hops = make([]byte, 1+r.Intn(3))
+		for j := range c.hops {
+			c.hops[j] = kinds[r.Intn(len(kinds))]
+		}
+		if r.Chance(45) {
+			c.hops[len(c.hops)-1] = opCALL
+		}
+		c.lastGas = []uint64{1_000_000, 1_000_000, 1_000_000, 1_000_000, 1_000_000, 4999, 5000}[r.Intn(7)]
+		c.ret = r.Bytes(r.Intn(40))
+		if c.addrB == 0x65 {
+			c.ret = r.Bytes(20)
+		}
+		c.refuse = r.Chance(10)
+		cases[i] = c
+	}
+	type res struct{ impl, ctxTok string }
+	seq := make([]res, len(cases))
+	for i, c := range cases {
+		seq[i].impl, seq[i].ctxTok, _ = c.run()
+	}
+	par := make([]res, len(cases))
+	var wg sync.WaitGroup
+	for rep := 0; rep < 3; rep++ {
+		for w := 0; w < workers; w++ {
+			wg.Add(1)
+			go func(w int) {
+				defer wg.Done()
+				for i := w; i < len(cases); i += workers {
+					impl, tok, _ := cases[i].run()
+					if rep == 0 || impl != seq[i].impl {
+						par[i] = res{impl, tok}
+					}
+				}
+			}(w)
+		}
+		wg.Wait()
+	}
+	v := "same"
+	for i, c := range cases {
+		herr := "-"
+		if c.refuse {
+			herr = "host_refused"
+		}
+		// each instance against the model of the precompile (sequential and concurrent run), and the two runs against each other
+		line := fmt.Sprintf("PB %x 1 %s %s %s %s %s", c.addrB, seq[i].ctxTok, hexBytes(c.ret), herr, hexU64(c.lastGas), hexBytes(c.input))
+		em.Op("C17,C14", line, seq[i].impl)
+		em.Op("C17,C14", line, par[i].impl)
+		if v == "same" && seq[i].impl != par[i].impl {
+			v = "differs:instance_" + fmt.Sprint(i) + ":alone=" + seq[i].impl + "|concurrent=" + par[i].impl
+		}
+		em.Count(fmt.Sprintf("conc:artela:%x:%s:gas=%d", c.addrB, callKindNames[c.hops[len(c.hops)-1]], c.lastGas))
+	}
+	em.Op("C17", "S conc-artela-same", strings.ReplaceAll(v, " ", "_"))
 }
